@@ -59,6 +59,22 @@ class Theory:
         self.unbox_int = z3.Function("val_unbox_int", Vl, z3.IntSort())
         self.apply = z3.Function("val_apply", Vl, Vl, Vl, Vl)
         self.nokw = z3.Const("val_no_kwargs", Vl)
+        # opaque strings: concatenation of opaque values; string constants as opaque values
+        self.str_concat = z3.Function("val_str_concat", Vl, Vl, Vl)
+        self._str_consts = {}
+        self._isinst = {}
+
+    def str_const(self, s):
+        """The opaque value standing for the string constant `s`."""
+        if s not in self._str_consts:
+            self._str_consts[s] = z3.Const(f"strval:{s}", V.Val)
+        return self._str_consts[s]
+
+    def val_isinstance(self, clsname):
+        """isinstance(<opaque value>, cls): an uninterpreted predicate per class name."""
+        if clsname not in self._isinst:
+            self._isinst[clsname] = z3.Function(f"val_isinstance.{clsname}", V.Val, z3.BoolSort())
+        return self._isinst[clsname]
 
     def dyn_axioms(self):
         a, b, c = z3.Consts("da db dc", V.Val)
@@ -310,6 +326,9 @@ class Property:
         for n in names:
             if n in pyname and isinstance(x, pyname[n]):
                 return z3.BoolVal(True)
+        if is_z3(x) and x.sort() == V.Val:
+            # an opaque value: its class is not known statically
+            return z3.Or(*[self.theory.val_isinstance(n)(x) for n in names])
         if is_z3(x):
             if "int" in names and V.is_int(x):
                 return z3.BoolVal(True)
@@ -344,6 +363,7 @@ class FnCtx:
         self.frame_rules = []
         self.free_vars = {}
         self.yield_type = None
+        self.mutated_params = set()
 
     # ---------------------------------------------------------------- signature
     def _signature(self):
@@ -399,6 +419,12 @@ class FnCtx:
             if isinstance(v, ObjV):
                 self.ex.assume(self.prop.alloc0(v.ref))
                 self.ex.assume(v.ref != V.NULL)
+            if self.spec.slice is not None:
+                pass  # live-in variables of a statement range: locals of the enclosing function
+            elif isinstance(v, (MapV, SeqV, SetV)):
+                v.owner = name  # the caller's container (see Exec.note_mutation / mutates)
+            elif isinstance(v, OptV) and isinstance(v.val, (MapV, SeqV, SetV)):
+                v.val.owner = name
         else:
             if self._bound is None:
                 self._bound = self._bind_actuals()
@@ -443,10 +469,20 @@ class FnCtx:
             if isinstance(v, OptV):
                 return v
             return OptV(z3.BoolVal(False), self._conform(v, typ.inner, name))
+        if isinstance(typ, (T.SEQ, T.MAP, T.SET)) and isinstance(v, OptV):
+            # a maybe-None value where the callee needs a container: must not be None here
+            self.ex.oblige(f"{self.ex.qualname}/call.{self.spec.name}.arg.{name}.not_none@{self._line()}", z3.Not(v.isnone), "call-precondition")
+            self.ex.assume(z3.Not(v.isnone))
+            v = v.val
         if isinstance(typ, T.SEQ):
             from .engine import EmptySeq
             from .builtins import empty_seq
 
+            from .engine import GenExp
+            from .builtins import to_seq
+
+            if isinstance(v, (GenExp, Tup)):
+                v = to_seq(self.ex, v, self.node)  # a generator expression / tuple handed over as the iterable
             if isinstance(v, EmptySeq):
                 return empty_seq(typ.elem.shape())
             if isinstance(v, SeqV):
@@ -528,6 +564,18 @@ class FnCtx:
             self._old_heap = dict(self.ex.heap)
             for f in fields:
                 self.ex.havoc_field(f, "call." + self.spec.name)
+
+    def mutates(self, *names):
+        """The function mutates these (container) parameters in place.  At a call the caller must
+        own what it passes: handing over a container that is itself a parameter of the calling
+        function is allowed only if that function declares the mutation too."""
+        self.mutated_params.update(names)
+        if self.mode == "call":
+            for nm in names:
+                v = self.args.get(nm)
+                owner = getattr(v, "owner", None)
+                if owner is not None and owner not in self.ex.fctx.mutated_params:
+                    self.ex.oblige(f"{self.ex.qualname}/frame.parameter_{owner}_is_not_mutated@{self._line()}", z3.BoolVal(False), "frame", getattr(self.node, "lineno", None))
 
     def result(self, typ):
         self.result_type = typ
